@@ -91,7 +91,7 @@ impl Check for StoreCheck {
     fn plan(&self, tier: Tier) -> Plan {
         let quick = tier == Tier::Quick;
         Plan {
-            cases: if quick { 320 } else { 6400 },
+            cases: if quick { 1200 } else { 12000 },
             max_tape: 230,
             min_slots: 4,
             max_slots: 41,
